@@ -229,8 +229,10 @@ Example full_cell_fails :
   bal_roomb ex_full_state 0 = true /\ bal_roomb ex_full_state 1 = false /\
   apply_entry ex_cfg 105 ex_full_state 0 (ex_transfer 902 1) = Fail E_OVERFLOW_CELL.
 Proof. vm_compute. repeat split; reflexivity. Qed.
-Example huge_transfer_fails :
-  apply_entry ex_cfg 105 ex_state 0 (one_tx 903 alice PTickerFCT 0 [{| tr_addr := bob; tr_amt := two63 |}]) = Fail E_SQLARG.
+(* (since entry_valid_at also asks that the outputs add up to the input and that the input fits int64, as
+   fat2's Validate does, such an entry no longer validates and is skipped) *)
+Example huge_transfer_is_skipped :
+  apply_entry ex_cfg 105 ex_state 0 (one_tx 903 alice PTickerFCT 0 [{| tr_addr := bob; tr_amt := two63 |}]) = Ok ex_state.
 Proof. vm_compute. reflexivity. Qed.
 
 (* hist_closed: a transaction row, or a held batch, whose hash has no batch row *)
